@@ -65,6 +65,18 @@ CLAIMED = {
             "messages in three topic patterns (straddling Redis' 10-name window), with one consumer and with a second "
             "consumer for the foreign topic; every consume() must return a message the FIFO model allows.",
             FAKES + " Delayed-then-due messages are outside the order oracle.", "DESIGN.md 4 C15"),
+    "C13": ("fault_enumeration", "scenario matrix x exhaustive enumeration of failing result-bucket calls (up to 2) with a fault-free twin",
+            "Execution chains (single, retry, recurring, eager) x values / exceptions x storing on/off x ttl x bucket "
+            "broker; every result-bucket call is a choice point succeed/raise, all subsets of at most two faults are "
+            "run: fault-free Job.result equals the last finished execution's outcome; with faults the broker calls and "
+            "final places equal the fault-free twin and the bystander job completes; nothing written when disabled.",
+            FAKES + " A failing bucket call raises before anything is written.", "DESIGN.md 4 C13"),
+    "C16": ("model_checking", "exhaustive call sequences on real Message handles with a broker-boundary spy",
+            "All sequences up to length 3 (4) of the six message-API actions on messages from every category and retry "
+            "state on all brokers, and inside actors all sequences over add_callback/set_result/set_exception followed "
+            "by each eager response: one action succeeds, later ones raise and cause no broker call, refusals leave the "
+            "handle usable, callbacks in order with the store at the latest set_*, trailing code never runs.",
+            FAKES, "DESIGN.md 4 C16"),
 }
 
 PENDING_REASON = "check not built yet in this revision of /verif (see DESIGN.md section 4 for the plan)"
